@@ -16,10 +16,10 @@ func init() {
 			"(1) TokenStore.UseToken takes the per-token lock keyed by the token ID before it re-reads the entry, decrements the re-read entry (not the caller's copy) and stores it while the lock is held; " +
 			"(2) in Core.handleRequest the backend dispatch and every non-forwarding return after CheckToken are unreachable unless UseToken's success edge (or the no-token-entry edge) was crossed, i.e. the use is counted before the authorisation verdict is acted on, and a nil entry from UseToken leads to permission denied; " +
 			"(3) the last use (NumUses == tokenRevocationPending) arms the deferred closure that lazily revokes the token's lease and replaces a leased response by an error; " +
-			"(4) token creation is unreachable for a parent with NumUses > 0; " +
+			"(4) token creation is unreachable for a parent with NumUses > 0; (4b) the parent tested by that guard (and by storeCommon's parent check) is the live entry from the untainted Lookup — or the guard refuses on NumUses != 0 — and only tabled revocation/tidy/wrapping/display paths call the tainted lookups; " +
 			"(2c) once the entry was fetched, every return of CheckToken(unauth=false) hands it back, so denied and failed requests are counted; (2d) after CheckToken, handleRequest returns before the use is counted only on the relative-path and forward-to-active refusals; " +
 			"(7) sys/seal and sys/step-down count the use before the policy verdict and before acting, refuse a nil entry, test the last use on UseToken's result and revoke the token's lease before acting; " +
-			"(1b) UseTokenByID returns nothing but UseToken's results with a nil-capable error; (1c) UseToken hands the caller's entry back undecremented only for NumUses == 0; (1d) the control-group authorisation rewrites a token entry only from a re-read made under the per-token lock keyed by that token; " +
+			"(1b) UseTokenByID returns nothing but UseToken's results with a nil-capable error; (1c) UseToken hands the caller's entry back undecremented only for NumUses == 0; (1d) the control-group authorisation rewrites a token entry only from a re-read made under the per-token lock keyed by that token; (1e) every token entry stored while a per-token lock is held (UseToken, control groups, orphaning of children, tidy) comes from a lookupInternal executed under that lock; " +
 			"(8) a login token's entry carries auth.NumUses on every path to its creation, and the on-read upgrade clears a legacy entry's deprecated use limit only after copying it when the new field is unset or larger.",
 		NotDecided: "the count bound under interleavings (needs the lock to be the only writer plus a schedule argument); that revocation of the lease actually completes.",
 		Run:        runC19,
